@@ -27,9 +27,10 @@ Reject(label, detail) ==
   /\ bad' = Append(bad, [scn |-> Ev.scn, line |-> l, labels |-> {label}, detail |-> detail])
   /\ l' = Ev.nb /\ stats' = Bump("rejected") /\ UNCHANGED <<req, cvars>>
 
+IsSkel == "kind" \in DOMAIN Ev.scenario.req
 TBegin == /\ chain' = Ev.scenario.chain /\ pos' = 1 /\ acc' = <<>> /\ seen' = <<>>
           /\ outcome' = IF Len(Ev.scenario.chain) = 0 THEN "ok" ELSE "running"
-          /\ req' = Ev.scenario.req
+          /\ req' = (IF IsSkel THEN [state |-> "", sandbox |-> "none", spec |-> "none", pid |-> 0] ELSE Ev.scenario.req)
           /\ l' = l + 1 /\ stats' = Bump("scenarios") /\ UNCHANGED bad
 
 \* the request as every plugin must see it
@@ -67,12 +68,24 @@ TReturn ==
   ELSE /\ (IF AtMissing THEN Invoke ELSE UNCHANGED cvars)
        /\ l' = l + 1 /\ UNCHANGED <<bad, stats, req>>
 
+\* skel.Run as a program: exit status and output against SkelOutcome
+TSkel ==
+  LET want == SkelOutcome(Ev.args, Ev.stdin, Ev.beh) IN
+  IF Ev.panicked THEN Reject("X05-skel-panic", <<Ev.args, Ev.stdin>>)
+  ELSE IF Ev.zero # want.zero \/ Ev.out # want.out THEN Reject("X05-skel-outcome", <<Ev.args, Ev.stdin, Ev.beh, Ev.zero, Ev.out>>)
+  ELSE IF want.out = "error-result" /\ Ev.errtext # (IF Len(Ev.args) > 0 /\ Ev.args[1] = "invoke"
+                                                      THEN (IF Ev.beh = "error" THEN "boom-1" ELSE "set-by-1")
+                                                      ELSE "invalid arg " \o (IF Len(Ev.args) > 0 THEN Ev.args[1] ELSE ""))
+       THEN Reject("X05-skel-error-text", <<Ev.args, Ev.errtext>>)
+  ELSE l' = l + 1 /\ stats' = Bump("invocations") /\ UNCHANGED <<bad, req, cvars>>
+
 Skip == l' = l + 1 /\ UNCHANGED <<bad, stats, req, cvars>>
 TraceNext ==
   /\ l <= Len(Tr)
   /\ CASE Ev.ev = "Begin"   -> TBegin
        [] Ev.ev = "invoked" -> TInvoked
        [] Ev.ev = "return"  -> TReturn
+       [] Ev.ev = "skel"    -> TSkel
        [] OTHER             -> Skip
 TraceSpec == TraceInit /\ [][TraceNext]_tvars
 \* the design-level properties hold in every state the recorded executions drive the specification through
